@@ -131,8 +131,9 @@ prop(
     "Base histories without panic (C03-like worlds that always have a panic key) and a panic press inserted at a generated index (thorough: "
     "TestC13All inserts at EVERY index), released immediately or a few events later, also while a complete up/down pair is held; in a quarter of the "
     "cases the panic is triggered by pushing a hat bound to the panic action instead of the key; the worlds have exit sequences (often containing "
-    "the panic key) that never complete. "
-    "Oracle: (1) the panic step emits only CC123 and Note Offs on the current channel, CC123 present, all 128 pitches covered, state unchanged; "
+    "the panic key) that never complete; a third of the histories bind any action to any key (AnyAction), and a tenth construct a STALE pair mark "
+    "directly (pair X completed while pair Y is held, Y released, panic here: X is marked held although its reset never ran). "
+    "Oracle: (1) the panic step emits only CC123 and Note Offs on the channel the device reported before the panic, CC123 present, all 128 pitches covered, state unchanged; "
     "(2) metamorphic: every other step emits exactly what the same history without the panic emits (releases of keys held across the panic may "
     "emit nothing instead), states equal; (3) quiescence/disconnect leave nothing sounding. Non-trivial = panic with >= 1 key held and a later press.",
     [
@@ -316,7 +317,7 @@ prop(
     "A temporary tree with the four directories and pre-created files (a.toml, device.toml, notes.txt, a.toml.bak, a.toml~, mytoml, x.tom, toml, "
     "atoml, README, hidden / blank-containing / multi-dot / Cyrillic / Latin-1 names); 1-8 operations: a single in-place write (open without truncation, one write(2)), a burst of 1-20 writes across "
     "directories/files, a series of 64-4096 (+-2) modifications alternating between two .toml files while the consumer is busy, a flood beyond "
-    "the kernel's event queue, or a pause; the consumer reads promptly or 1-200 ms late; then cancel while idle, with a notification pending unread, or "
+    "the kernel's event queue, a nested directory removed and created again under the same path with a write to a file in it, or a pause; the consumer reads promptly or 1-200 ms late; then cancel while idle, with a notification pending unread, or "
     "in the middle of a burst. Count-based oracle that is sound under any timing: total notifications <= in-place writes to *.toml files "
     "(so a notification for any other file is an excess), after every write/burst that touched a .toml file at least one further "
     "notification arrives within 10 s, the stream does not end before cancel, and after cancel a consumer that keeps receiving sees it end "
@@ -391,7 +392,8 @@ prop(
     "directory per case. State of hidi-config: absent (first start), or present with every built-in factory file independently intact / absent / "
     "truncated at a generated byte (a third of the cuts on or next to a multiple of 512 / 1024 / 4096 / 8192, or at the very ends) / modified "
     "(shorter, same length, longer, padded to whole blocks), factory directories absent, 0-7 arbitrary files below user/ "
-    "(incl. names that mirror factory names, nested dirs), hidi.toml and the blacklist present with arbitrary bytes or absent, extra files. "
+    "(incl. names that mirror factory names, nested dirs), entries of the wrong kind at factory paths (links to a file / a directory / themselves / "
+    "through a file / nowhere, a directory, a named pipe or a unix socket where a file belongs, a file where a directory belongs), hidi.toml and the blacklist present with arbitrary bytes or absent, extra files. "
     "Crash states are built by construction from the deterministic walk order: an interrupted FIRST run (walk entries before k exist, entry k "
     "cut at byte b, nothing after) and an interrupted UPDATE run over a generated state (factory files before k restored, file k truncated to b "
     "bytes, the rest as generated). 0-2 reruns. Oracle: no error; every built-in factory file present and byte-identical to its embedded "
@@ -430,7 +432,8 @@ prop(
     "keys, light bars, near-miss spellings) in random order (generic controller, or the HyperX name with/without its 18 strip LEDs); description "
     "with 1-3 mappings (never named Control), 2-10 note keys, 70% of the octave/semitone/channel/mapping/panic/multinote keys, seven "
     "pairwise distant colours, non-zero default transposition/channel in some cases. 3-24 steps: note key press/release, action taps "
-    "(any transposition, a quarter of the worlds start far out), MIDI-in Note On / Note Off / Note On with velocity 0 on the current or another channel (80% aimed at a "
+    "(any transposition, a quarter of the worlds start far out), MIDI-in Note On / Note Off / Note On with velocity 0 on the current or another channel (a sounding pitch may be struck "
+    "again 1-3 times before its one release; 80% aimed at a "
     "mapped key's current pitch; 1/6 of them preceded by some other legal message: controller, bend, real-time byte, SysEx ...), "
     "mapped key's current pitch), panic, and observations. Oracle at each observation: reference frame function over the LEDs the property "
     "speaks about - note-key LEDs: unavailable colour when out of range, else pitch-class colour (+-2 per component), or one of the applicable "
@@ -450,16 +453,21 @@ prop(
     "C16", "exploration",
     "1-4 real devices processed concurrently in a binary built with -race: each with the real LED loop connected to one fake OpenRGB server "
     "(own controller / hidraw node), MIDI-in from one real DynamicFanOut fed with 0-12 cycling messages (Note On / Off; a third of them any other legal message: controllers, "
-    "bend, program change, pressure, all real-time bytes incl. system reset, song position, SysEx), one shared DeviceConfig value; per "
+    "bend, program change, pressure, all real-time bytes incl. system reset, song position, SysEx), one shared DeviceConfig value; half of the devices with logging on "
+    "(into a drained tap), exit sequences that a history may complete (the signal goes to a handler of the harness); per "
     "device a key history of 0-30 events (C17-style descriptions and layouts) that ends with a note key held in 80% of the cases, and the "
     "moment its event stream ends drawn from: before the LED loop connects (0-200 ms), during controller discovery (260-490 ms), after the "
     "first frame with the history played back to back / with 0-6 ms pauses (between frames) / followed by a 0-40 ms wait, always while MIDI-in "
     "traffic flows; then the manager's DespawnOutput. Oracles: (1) no data-race report whose stack is in HIDI code (race log parsed after every "
     "case); (2) ProcessEvents returns within 3 s of the end of its stream (15 s guard with goroutine dump); (3) within 3 s after all devices "
     "ended no goroutine of the device package is alive; (4) each device's MIDI output equals the output of the same history run alone "
-    "(exact sequence; disconnect clean-up compared as a multiset because its order is a map walk). Non-trivial = a device whose stream ended "
+    "(exact sequence; disconnect clean-up compared as a multiset because its order is a map walk). TestC16Paused: the timing in which the whole "
+    "PROCESS stands still - right after the devices are attached (0-400 ms) the test process stops itself (SIGSTOP; a helper continues it after "
+    "5.2-6.5 s, longer than the LED loop's budget for connecting); afterwards the process must be alive, the devices end on the end of their "
+    "streams and leave no goroutine. TestC16Stall: a server that stops reading, in a private network namespace with 4 KB TCP buffers. Non-trivial = a device whose stream ended "
     "with a note held after its LED loop had sent >= 1 frame; distinct by case hash.",
     [dict(test="TestC16", bin="race", wrap="mountns", shards=16, checks_quick=12, checks_thorough=200, shrinktime="15s", gomaxprocs=4, timeout_quick=900),
+     dict(test="TestC16Paused", wrap="mountns", shards_quick=8, shards_thorough=16, checks_quick=1, checks_thorough=8, shrinktime="1s", gomaxprocs=4, timeout_quick=900),
      dict(test="TestC16Stall", wrap="mountnetns", shards_quick=4, shards_thorough=16, checks_quick=2, checks_thorough=12, shrinktime="30s", gomaxprocs=4, timeout_quick=900)],
     level_text="Generated concurrent schedules under the Go race detector (happens-before based: an unsynchronised access pair is reported "
                "without having to hit the timing window), with termination, leak and solo-vs-concurrent differential oracles.",
